@@ -39,6 +39,13 @@
 (* P-allowed callbacks), ImplsAgree (the two replicas and their callbacks  *)
 (* coincide on well-behaved histories) and the callback laws.              *)
 (*                                                                         *)
+(* M describes the intended mechanism.  Where the unchanged client code     *)
+(* departs from it (map.rs on_event: Clear applied only when dispatching;  *)
+(* Take / Drop callbacks ignore the dispatch flag; Drop hands on_remove an *)
+(* empty map) the departure is NOT in M: it is a named deviation step      *)
+(* (F6a, F6b, F6c) of Trace_DownlinkState.tla, enabled only while the      *)
+(* finding is listed as open in known_findings/C08.json.                   *)
+(*                                                                         *)
 (* Abstract data: keys 1..NK (ordered as the concrete keys are), values    *)
 (* 1..NV, 0 = "no value".  A map is a function from a subset of 1..NK.     *)
 (***************************************************************************)
